@@ -59,6 +59,10 @@ def startup(chk):
             chk.bad(rule, run.qual, "run() calls runtime.accept() %d times" % len(ac), node=run.node, stmt="accept-count")
             ok = False
             continue
+        if not ad:
+            chk.bad(rule, run.qual, "run() adopts nothing before accept(): the configuration is never loaded and the daemon stays up idle without its pipeline", node=run.node, stmt="adopt-nothing")
+            ok = False
+            continue
         LS = ("glob", slots.load_services(prog).qual)
 
         def unbind(c):
